@@ -282,7 +282,8 @@ def concretize(rec, rng):
 
 def check_vector(item):
     """replay one MC_Encoding behaviour; returns (problem | None, trace | None)"""
-    rec, seed = item
+    rec, seed = item[0], item[1]
+    keep = len(item) < 3 or item[2]
     import random
     rng = random.Random(seed)
     data, labels = concretize(rec, rng)
@@ -305,7 +306,7 @@ def check_vector(item):
         return ("meta events %r, model %r" % (got, exp), case), tr
     if not (tr["tf"] and tr["ds"]):
         return ("tree differs from the tree of the decoded text (tf=%s ds=%s)" % (tr["tf"], tr["ds"]), case), tr
-    return None, tr
+    return None, (tr if keep else None)
 
 
 def check_prescan(rec):
@@ -587,8 +588,8 @@ def run(ctx):
     kinds = [("scan", 3 if q else 4, [0]), ("attr", 3 if q else 4, [0]), ("content", 4 if q else 5, [0]),
              ("window", 2 if q else 3, [990, 1000, 1003, 1004] if q else [980, 990, 996, 1000, 1002, 1003, 1004, 1005, 1010, 1024]),
              ("attrlist", 2 if q else 4, [0])]
-    enc_lazy = dict(labels=["none", "A", "bogus", "utf16", "xud"] if q else ["none", "A", "B", "bogus", "empty", "utf16", "utf16be", "xud", "utf8"],
-                    decl_labels=["A", "bogus", "utf16"] if q else ["A", "B", "bogus", "utf16", "utf16be", "xud", "w1252"],
+    enc_lazy = dict(labels=["none", "A", "bogus", "utf16", "xud"] if q else ["none", "A", "bogus", "utf16be", "xud"],
+                    decl_labels=["A", "bogus", "utf16"] if q else ["A", "B", "bogus", "utf16be", "xud"],
                     forms=["charset", "pragma", "nopragma"], boms=["none", "utf-8", "utf-16le", "utf-16be", "utf-32le", "utf-32be"],
                     maxwin=1, maxdecl=2)
     enc_prod = dict(labels=["none", "A", "bogus", "utf16"] if q else ["none", "A", "B", "bogus", "utf16", "xud"],
@@ -660,9 +661,10 @@ def run(ctx):
         recs = [x for x in core.tlc.iter_records(r.stdout_path) if isinstance(x, dict) and "args" in x]
         keyed = sorted((json.dumps(x, sort_keys=True), x) for x in recs)
         recs = [x for _, x in keyed]
-        items = [(x, (ctx.seed << 32) ^ zlib.crc32(k.encode())) for k, x in keyed]
-        results = core.parallel(check_vector, items, chunk=500)
         step = max(1, len(recs) // (400 if q else 6000))
+        items = [(x, (ctx.seed << 32) ^ zlib.crc32(k.encode()), i % step == 0) for i, (k, x) in enumerate(keyed)]
+        del keyed
+        results = core.parallel(check_vector, items, chunk=500)
         for i, (rec, (p, tr)) in enumerate(zip(recs, results)):
             ctx.traces += 1
             if p:
